@@ -43,6 +43,9 @@ ASSUMPTIONS = [
     "(JAX semantics; under vmap the callback is unrolled per lane, the lane layout is recovered by continuity, not assumed)",
     "a composite kernel's accept is the last value it saves under the name 'accept' (later write wins, C19)",
     "kernel correctness itself (the law of one step) is C09's subject; here a step is whatever the kernel did",
+    "harness-side compile reuse: an eagerly dispatched scan whose printed jaxpr, parameters and argument avals are "
+    "identical to an earlier one reuses that executable (lib/c18_lib.install_scan_compile_cache); genjax is still "
+    "traced in full on every call",
 ]
 KERNELS_OF = {
     "quick": {
@@ -68,7 +71,7 @@ def grid(n):
 
 
 MODEL_ORDER = ["scalar", "vector", "scan"]
-CHUNK = 12  # grid points per case (whole thinning groups), so that shards stay level
+CHUNK = 64  # grid points per case (whole thinning groups); 64 = never split for n <= 12
 
 
 def kernels_of_n(tier, model, n):
@@ -102,9 +105,10 @@ def plan(tier, seed):
                     for ci, pts in enumerate(_chunks(n)):
                         # one grid point per (model, kernel, even n) is re-run under jax.jit
                         jp = pts[int(rng.integers(0, len(pts)))] if (c == 1 and n % 2 == 0 and ci == 0) else None
-                        calls = len(pts) + (0 if [0, 1] in pts else 1) + (jp is not None)
+                        # cost model: one full compile (~6 cheap calls) per case and per jit point
+                        calls = 6 + len(pts) + (0 if [0, 1] in pts else 1) + 6 * (jp is not None)
                         cases.append({"model": m, "kernel": k, "n": n, "c": c, "points": pts, "jit_point": jp,
-                                      "cost": (1.0 if c == 1 else 2.5) * calls})
+                                      "cost": (1.0 if c == 1 else 2.0) * calls})
         for c in MULTI_SAMPLED_C[tier]:
             for k in rng.choice(ks, size=MULTI_SAMPLED_KERNELS[tier], replace=False):
                 n = int(rng.integers(4, nmax + 1))
@@ -112,7 +116,7 @@ def plan(tier, seed):
                 idx = rng.choice(len(g), size=MULTI_SAMPLED_PTS[tier], replace=False)
                 pts = [g[int(i)] for i in sorted(idx)]
                 cases.append({"model": m, "kernel": str(k), "n": n, "c": c, "points": pts, "jit_point": None,
-                              "cost": 3.0 * (len(pts) + 1)})
+                              "cost": 2.5 * (6 + len(pts) + 1)})
     # round-robin sharding: largest first keeps the shards level
     cases.sort(key=lambda d: -d["cost"])
     return cases
@@ -163,6 +167,7 @@ def worker_setup(ctx):
     from lib import c18_lib as L
 
     L.install_save_probe()
+    L.install_scan_compile_cache()
     _W.update(jax=jax, jnp=jnp, seed=seed, const=const, chain=chain, L=L)
     ctx.note(
         "every comparison is bitwise except acceptance_rate (|real - float64 mean| <= 1e-6); "
@@ -432,6 +437,9 @@ def run_case(case, ctx):
         b, t = case["jit_point"]
         if go(b, t, jit=True) is not None:
             ctx.count("jit_points")
-    if ref is not None and case["index"] % 29 == 0:
+    for name in ("compiled", "reused"):
+        ctx.count("eager_scans_" + name, L.SCAN_STATS[name] - _W.get("scan_" + name, 0))
+        _W["scan_" + name] = L.SCAN_STATS[name]
+    if ref is not None and case["index"] % 7 == 0:
         ctx.sample({**base, "n_steps": n, "n_chains": c, "unthinned_logged_accepts": ref["exp_acc"].astype(int).tolist(),
                     "grid_points_in_case": len(case["points"]), "distinct_states_visited": ref["distinct_states"]})
